@@ -308,6 +308,33 @@ func runJobctlScenarios(c *Ctx) {
 		c.Nontrivial()
 	})
 
+	// F22 (known finding): task refs are keyed by name and the task lookups ignore the owner: a
+	// foreign Pod that takes the name of a recorded task after that task's Pod vanished is read as
+	// the task.
+	c.RunScenario("f22-foreign-pod-takes-recorded-name", func() {
+		w := newJobctlSc(c, nil)
+		w.flush()
+		w.work() // creates and records job-<h>-0
+		w.flush()
+		name := ""
+		for _, p := range w.ownedPods() {
+			name = p.Name
+			w.kubelet(p, 6) // the Pod object vanishes
+		}
+		fp := &corev1.Pod{ObjectMeta: metav1.ObjectMeta{Namespace: "ns", Name: name}}
+		_, _ = w.api.Create("pods", fp, false)
+		w.foreign[name] = true
+		c.Emit(fmt.Sprintf("jc.foreign %s 0", name), w.state())
+		w.api.Mutate("pods", "ns/"+name, func(o runtime.Object) { o.(*corev1.Pod).Status.Phase = corev1.PodSucceeded })
+		c.Emit(fmt.Sprintf("jc.pod %s %s", name, podDigest(w.apiPod(name))), w.state())
+		w.flush()
+		w.work()
+		w.flush()
+		w.settle(2)
+		w.finalMonitors()
+		c.Nontrivial()
+	})
+
 	// F15: a task created but not recorded (status update conflict) is still killed with the Job.
 	c.RunScenario("f15-orphan-after-kill", func() {
 		w := newJobctlSc(c, nil)
